@@ -612,6 +612,49 @@ func runC10(c *Ctx) {
 		{"[]byte parent", []byte{0x84}},
 		{"Headers parent", cose.Headers{}},
 	}
+	// properly signed objects handed over as something that is none of the four parent types (or a pointer
+	// to one): a struct of the application that embeds one, a pointer to a pointer, a pointer to an
+	// interface value, a defined type with the same underlying struct
+	{
+		sm := &cose.SignMessage{Headers: cose.Headers{Protected: cose.ProtectedHeader{}}, Payload: []byte("p"), Signatures: []*cose.Signature{{Headers: cose.Headers{Protected: cose.ProtectedHeader{int64(1): k.Alg}}, Signature: sigOK}}}
+		sg := sm.Signatures[0]
+		cp := &cose.Countersignature{Headers: cose.Headers{Protected: cose.ProtectedHeader{int64(1): k.Alg}}, Signature: sigOK}
+		p2 := &signed
+		p3 := &p2
+		sm2 := &sm
+		sm3 := &sm2
+		var asAny any = signed
+		var asAnyV any = *signed
+		type definedSign1 cose.Sign1Message
+		type definedSignature cose.Signature
+		refusals = append(refusals,
+			refusal{"struct embedding Sign1Message", c10embedsSign1{Sign1Message: *signed, Note: "n"}},
+			refusal{"pointer to struct embedding Sign1Message", &c10embedsSign1{Sign1Message: *signed}},
+			refusal{"struct embedding *Sign1Message", c10embedsSign1Ptr{Sign1Message: signed}},
+			refusal{"pointer to struct embedding *Sign1Message", &c10embedsSign1Ptr{Sign1Message: signed}},
+			refusal{"struct embedding SignMessage", c10embedsSign{SignMessage: *sm}},
+			refusal{"pointer to struct embedding *SignMessage", &c10embedsSignPtr{SignMessage: sm}},
+			refusal{"struct embedding Signature", c10embedsSignature{Signature: *sg}},
+			refusal{"pointer to struct embedding *Signature", &c10embedsSignaturePtr{Signature: sg}},
+			refusal{"struct embedding Countersignature", c10embedsCountersignature{Countersignature: *cp}},
+			refusal{"pointer to struct embedding *Countersignature", &c10embedsCountersignaturePtr{Countersignature: cp}},
+			refusal{"**Sign1Message", p2},
+			refusal{"***Sign1Message", p3},
+			refusal{"**SignMessage", sm2},
+			refusal{"***SignMessage", sm3},
+			refusal{"**Signature", &sg},
+			refusal{"**Countersignature", &cp},
+			refusal{"*interface holding *Sign1Message", &asAny},
+			refusal{"*interface holding Sign1Message", &asAnyV},
+			refusal{"defined type over Sign1Message", definedSign1(*signed)},
+			refusal{"pointer to defined type over Sign1Message", (*definedSign1)(signed)},
+			refusal{"pointer to defined type over Signature", (*definedSignature)(sg)},
+			refusal{"slice of *Sign1Message", []*cose.Sign1Message{signed}},
+			refusal{"array of Sign1Message", [1]cose.Sign1Message{*signed}},
+			refusal{"map holding *Sign1Message", map[string]any{"parent": signed}},
+			refusal{"func returning *Sign1Message", func() *cose.Sign1Message { return signed }},
+		)
+	}
 	for _, rf := range refusals {
 		for _, ext := range [][]byte{nil, []byte("x")} {
 			in := map[string]any{"refusal": rf.name, "external": ext}
@@ -831,3 +874,16 @@ func c10withUnprotectedValue(ptr any, label int64, v any) any {
 	}
 	return nil
 }
+
+// application structs that embed a parent type (the methods of the embedded type are promoted)
+type c10embedsSign1 struct {
+	cose.Sign1Message
+	Note string
+}
+type c10embedsSign1Ptr struct{ *cose.Sign1Message }
+type c10embedsSign struct{ cose.SignMessage }
+type c10embedsSignPtr struct{ *cose.SignMessage }
+type c10embedsSignature struct{ cose.Signature }
+type c10embedsSignaturePtr struct{ *cose.Signature }
+type c10embedsCountersignature struct{ cose.Countersignature }
+type c10embedsCountersignaturePtr struct{ *cose.Countersignature }
